@@ -109,6 +109,19 @@ var c03Misuse = core.Mon(c03, "misuse-is-error", func(w *core.W, c *MisuseCase) 
 	}
 	if out.Err == nil {
 		w.Violation("misuse-is-error", "C03/misuse-not-reported:"+c.Class, c, "an error", show(out.Val), "misuse ("+c.Class+") evaluated to a value: "+c.Quoted())
+		return
+	}
+	// the same on a Runner the host declared itself instead of asking NewRunner for one
+	if core.Hash64(c.Src)%3 == 0 {
+		oz := evaluate(c.Src, c.Data, &evalOpts{zeroRunner: true})
+		w.Count("misuse_on_zero_value_runner")
+		if oz.Panicked {
+			w.Violation("misuse-is-error", "C03/escaped-panic:"+panicClass(oz.PanicVal), c, "an error", fmt.Sprint(oz.PanicVal), "panic escaped Resolve of a zero-value Runner (new(formula.Runner), SetThis) on "+c.Quoted())
+			return
+		}
+		if oz.Err == nil {
+			w.Violation("misuse-is-error", "C03/misuse-not-reported:"+c.Class, c, "an error", show(oz.Val), "misuse ("+c.Class+") evaluated to a value on a zero-value Runner: "+c.Quoted())
+		}
 	}
 })
 
@@ -116,7 +129,8 @@ var misuseTemplates = []struct{ class, src string }{
 	{"call-non-function", "n0()"}, {"call-non-function", "s0(1)"}, {"call-non-function", "undefinedname()"}, {"call-non-function", "z()"}, {"call-non-function", "m(1)"},
 	{"call-non-function", "arr()"}, {"call-non-function", "m.k(1)"}, {"call-non-function", "m.missing()"}, {"call-non-function", "b0()"}, {"call-non-function", "st()"},
 	{"call-non-function", "1()"}, {"call-non-function", "'f'()"}, {"call-non-function", "(fid)(1)"}, {"call-non-function", "null()"}, {"call-non-function", "t0()"},
-	{"call-non-function", "abs(1)(2)"},
+	{"call-non-function", "abs(1)(2)"}, {"call-non-function", "undefinedname.f(1)"}, {"call-non-function", "nilp.rename('y')"}, {"call-non-function", "z.k()"}, {"call-non-function", "m.missing.deep(1, 2)"},
+	{"call-non-function", "1 + undefinedname.age()"}, {"call-non-function", "nd.f()"}, {"call-non-function", "undefinedname.a.b.c()"}, {"call-non-function", "st.M.nope.f(1)"},
 	{"arg-count", "abs()"}, {"arg-count", "abs(1, 2)"}, {"arg-count", "left('a')"}, {"arg-count", "left('a', 1, 2)"}, {"arg-count", "fcat('a')"}, {"arg-count", "fcat('a','b','c')"},
 	{"arg-count", "now(1)"}, {"arg-count", "date(2020, 1)"}, {"arg-count", "fid()"}, {"arg-count", "fid(1, 2)"}, {"arg-count", "fctx()"}, {"arg-count", "fctx(1, 2)"}, {"arg-count", "max()"},
 	{"arg-count", "fnums(1, 2, 3)"}, {"arg-count", "fnums(1, 2, 3, 4, 5)"}, {"arg-count", "join(strs)"}, {"arg-count", "mid('abc', 1)"}, {"arg-count", "replace('a','b')"},
